@@ -258,7 +258,7 @@ def program_features(p):
 # ---- K: parse-level correspondence ---------------------------------------------------------------
 def parse_correspondence(ctx, hist):
     rng = ctx.rng
-    nprog = ctx.pick(70, 500)
+    nprog = ctx.pick(50, 500)
     progs = []
     for i in range(nprog):
         g = T.ProgGen(rng)
@@ -330,7 +330,7 @@ def parse_correspondence(ctx, hist):
 # ---- arithmetic precedence ---------------------------------------------------------------------------
 def precedence_check(ctx, hist):
     rng = ctx.rng
-    n = ctx.pick(400, 3000)
+    n = ctx.pick(300, 3000)
     exprs = []
     pts = [{"x": str(Fraction(rng.randint(-7, 7), rng.randint(1, 5))), "y": str(Fraction(rng.randint(1, 9), rng.randint(1, 4))),
             "z": str(Fraction(rng.randint(-9, -1), rng.randint(1, 3)))} for _ in range(4)]
@@ -440,18 +440,20 @@ def parse_moments(out):
 # ---- full analysis on several spellings + oracle -----------------------------------------------------
 def analysis_check(ctx, hist):
     rng = ctx.rng
-    nprog = ctx.pick(10, 60)
+    nprog = ctx.pick(8, 60)
     nmax = 6
     n_or = 3
     goals = [{"a": 1}, {"b": 1}, {"a": 2}, {"a": 1, "b": 1}, {"a": 1, "f": 1}]
     gtxt = ["a", "b", "a**2", "a*b", "a*f"]
     progs = [T.gen_analysable(rng) for _ in range(nprog)]
     tasks, meta = [], []
+    NS = 3
     for p in progs:
         base = T.Spelling(rng, parens="full", consts="frac", last_prob="explicit", simult="simult", elif_="elif")
-        alt = T.Spelling(rng, ws=rng.choice(["tight", "wide"]), comments=True, blank=True, parens="min", consts="dec",
+        alt = T.Spelling(rng, ws=rng.choice(["tight", "wide"]), comments=True, blank=True, parens="min", consts="frac",
                          last_prob="implicit", simult="temps", elif_="nested")
-        for name, sp in (("baseline", base), ("all-sugar-rewritten", alt)):
+        dec = T.Spelling(rng, ws="normal", parens="random", consts="dec", last_prob="implicit", simult="simult", elif_="elif")
+        for name, sp in (("baseline", base), ("all-sugar-rewritten", alt), ("decimal", dec)):
             text = T.prog_text(p, sp)
             tasks.append({"kind": "c19_analyze", "text": text, "goals": gtxt, "nmax": nmax, "timeout": 150})
             meta.append((p, name, text))
@@ -468,10 +470,17 @@ def analysis_check(ctx, hist):
         else:
             oc.append(None)
             hist.setdefault("oracle_failures", []).append(o_[-300:])
-    stat = {"compared": 0, "refused": 0, "oracle_compared": 0, "oracle_missing": 0}
+    stat = {"compared": 0, "refused": 0, "oracle_compared": 0, "oracle_missing": 0, "decimal_compared": 0}
+
+    def close(u, v):
+        try:
+            return all(abs(Fraction(x) - Fraction(y)) <= Fraction(1, 10 ** 9) * max(1, abs(Fraction(x))) for x, y in zip(u, v))
+        except Exception:
+            return False
+
     for i, p in enumerate(progs):
-        ra, rb = results[2 * i], results[2 * i + 1]
-        ta, tb = meta[2 * i][2], meta[2 * i + 1][2]
+        ra, rb, rd = results[NS * i], results[NS * i + 1], results[NS * i + 2]
+        ta, tb, td = meta[NS * i][2], meta[NS * i + 1][2], meta[NS * i + 2][2]
         hist["analysis_shapes"][p["shape"]] = hist["analysis_shapes"].get(p["shape"], 0) + 1
         ctx.count({"t": ta}, nontrivial=True)
         ctx.coverage["obligations"] += 1
@@ -494,6 +503,28 @@ def analysis_check(ctx, hist):
                           f"E({bad[0]}) differs between two spellings of one program: {bad[1]} vs {bad[2]}")
             continue
         stat["compared"] += 1
+        # the decimal spelling: exact agreement expected; a difference within rounding is the known float finding
+        if "goals" in rd:
+            dbad = None
+            for g in gtxt:
+                va, vd = ra["goals"][g].get("values"), rd["goals"][g].get("values")
+                if va != vd:
+                    dbad = (g, va, vd)
+                    break
+            if dbad is None:
+                stat["decimal_compared"] += 1
+            else:
+                rep = dict(replay, text_decimal=td, polar_decimal=rd, goal=dbad[0], values_a=dbad[1], values_decimal=dbad[2])
+                if dbad[1] is not None and dbad[2] is not None and close(dbad[1], dbad[2]):
+                    ctx.violation(SIG_FLOAT, rep, "closed forms of the decimal spelling differ from the fraction spelling by float rounding")
+                else:
+                    ctx.violation(f"analysis:decimal-spelling-differs:{p['shape']}", rep,
+                                  f"E({dbad[0]}) differs between fraction and decimal spelling: {dbad[1]} vs {dbad[2]}")
+                    continue
+        else:
+            ctx.violation("analysis:decimal-spelling-refused", dict(replay, text_decimal=td, polar_decimal=rd),
+                          "the decimal spelling of an analysable program is refused")
+            continue
         o = oc[i]
         if o is None:
             stat["oracle_missing"] += 1
@@ -513,7 +544,7 @@ def analysis_check(ctx, hist):
         if obad:
             ctx.violation(f"analysis:differs-from-reference-semantics:{p['shape']}",
                           dict(replay, goal=obad[0], n=obad[1], polar=obad[2], reference=obad[3]),
-                          f"E({obad[0]}) at n={obad[1]}: Polar {obad[2]} (both spellings), reference semantics {obad[3]}")
+                          f"E({obad[0]}) at n={obad[1]}: Polar {obad[2]} (all spellings), reference semantics {obad[3]}")
             continue
         stat["oracle_compared"] += 1
         ctx.coverage["discharged"] += 1
@@ -524,7 +555,7 @@ def analysis_check(ctx, hist):
 # ---- malformed texts ----------------------------------------------------------------------------------
 def malformed_check(ctx, hist):
     rng = ctx.rng
-    nprog = ctx.pick(60, 400)
+    nprog = ctx.pick(45, 400)
     tasks, meta = [], []
     for _ in range(nprog):
         g = T.ProgGen(rng, {"decarith": False})
